@@ -73,8 +73,9 @@ class Case:
             d["c"] = inp.declare("c", (2 * norb, nu + nd), cplx if (kind == "ghf" and opts.get("ghf_complex", True)) else False)    # ghf_cpmc: constrained-path trials are real
         elif kind == "noci":
             d["ci"] = inp.declare("ci", (ndets,))
-            d["du"] = inp.declare("du", (ndets, norb, nu))
-            d["dd"] = inp.declare("dd", (ndets, norb, nd))
+            ncx = cplx if opts.get("noci_complex", True) else False      # complex NOCI determinants are admissible parameters (coefficients kept real)
+            d["du"] = inp.declare("du", (ndets, norb, nu), ncx)
+            d["dd"] = inp.declare("dd", (ndets, norb, nd), ncx)
         elif kind in ("cisd", "cisd_faster", "CISD"):
             d["c1"] = inp.declare("c1", (no, nv))
             d["c2a"] = inp.declare("c2a", (no, nv, no, nv))
@@ -145,7 +146,10 @@ class Case:
                     v = F.det_vec(du[k], dd[k]) * ci[k]
                     tot = v if tot is None else tot + v
                 return tot
-            self.psibar = H.both(bra, V("ci"), V("du"), V("dd"))
+            cbu, cbd = (d["du"]["Vc"], d["dd"]["Vc"]) if d["du"].get("partner") else (V("du"), V("dd"))
+            self.psibar = H.both(bra, V("ci"), cbu, cbd)
+            self.psiket = H.both(bra, V("ci"), V("du"), V("dd"))
+            self.Db = [cbu, cbd]          # conjugated determinants (as symbols)
         elif kind in ("cisd", "cisd_faster", "CISD", "CISD_THC"):
             self.trial = getattr(wf, kind)(norb, nel)
             c1 = V("c1")
@@ -535,7 +539,7 @@ def green(kind, norb, nu, nd, **kw):
         nat = np.concatenate([np.asarray(o).reshape(-1) for o in nat])
     elif kind == "noci":
         out, nat, _ = run_real(c, "_calc_green", [c.wu, c.wd, c.wave])
-        du, dd = c.d["du"]["V"].s, c.d["dd"]["V"].s
+        du, dd = c.Db[0].s, c.Db[1].s
         gu = np.stack([green_spec(du[k], c.wu.s) for k in range(c.ndets)])
         gd = np.stack([green_spec(dd[k], c.wd.s) for k in range(c.ndets)])
         ok = np.array([det_sym(du[k].T.dot(c.wu.s)) * (det_sym(dd[k].T.dot(c.wd.s)) if nd else 1) for k in range(c.ndets)], dtype=object)
@@ -545,7 +549,22 @@ def green(kind, norb, nu, nd, **kw):
     else:
         raise Unsupported(kind)
     o = H.identity(name, out, spec, functions=fq(c, "_calc_green"), inputs=c.inp, t0=t0)
+    _replay_vs_spec(o, c.inp, spec, nat)
     return finish([o], [H.crosscheck(name, c.inp, out, nat)])
+
+
+def _replay_vs_spec(o, inp, spec, nat, tol=1e-8):
+    """native replay of a refuted identity: the REAL function's float64 output at the numeric point of the symbols against the spec evaluated there"""
+    if o["status"] != REFUTED or o.get("replayed"):
+        return
+    try:
+        want = np.asarray(inp.val(np.asarray(spec, dtype=object))).reshape(-1)
+        got = np.asarray(nat).reshape(-1)
+        dev = float(np.max(np.abs(got - want) / (1 + np.abs(want))))
+        o["replayed"] = bool(dev > tol)
+        o["witness"] = dict(o.get("witness") or {}, native=dict(max_rel_deviation_real_function_vs_spec=dev))
+    except ZeroDivisionError:
+        pass
 
 
 def _intercepts(c):
@@ -592,7 +611,7 @@ def _sd_wick_terms(c, what):
     fr = c._fresh
     L, h1, h0 = c.L.s, c.h1.s, c.h0.s[()] if is_obj(c.h0.s) else c.h0.s
     if c.kind == "noci":
-        du, dd, ci = c.d["du"]["V"].s, c.d["dd"]["V"].s, c.d["ci"]["V"].s
+        du, dd, ci = c.Db[0].s, c.Db[1].s, c.d["ci"]["V"].s
         num = den = None
         for k in range(c.ndets):
             G = [full_green(du[k], fr["gu"]["V"].s[k]), full_green(dd[k], fr["gd"]["V"].s[k])]
@@ -1125,14 +1144,16 @@ def rdm_true(kind, norb, nu, nd, complex_orbitals=False):
         c = Case("noci", norb, nel, ndets=2)
         s, x = c.sx(c.wave)
         got, _ = evaluate(c.inp.sp, c.trial._calc_rdm1, (s,), (x,))
-        psi = c.psibar.s
-        nrm = F.inner(psi, psi)
+        psib, psi = c.psibar.s, c.psiket.s
+        nrm = F.inner(psib, psi)
         want = np.empty((2, norb, norb), dtype=object)
         for sp_ in range(2):
             for p in range(norb):
                 for q in range(norb):
-                    want[sp_, p, q] = F.inner(psi, F.apply_E(q, p, sp_, psi)) / nrm
-        return [H.identity(name, got, want, functions=fq(c, "_calc_rdm1"), inputs=c.inp, t0=t0, note="NOCI 1-RDM == <psi|a+_q a_p|psi>/<psi|psi> for symbolic real determinants")]
+                    want[sp_, p, q] = F.inner(psib, F.apply_E(q, p, sp_, psi)) / nrm
+        o = H.identity(name, got, want, functions=fq(c, "_calc_rdm1"), inputs=c.inp, t0=t0, note="NOCI 1-RDM == <psi|a+_q a_p|psi>/<psi|psi> for symbolic complex determinants, real coefficients")
+        _replay_vs_spec(o, c.inp, want, c.trial._calc_rdm1(x))
+        return [o]
     # exact orthonormal orbitals
     M = rational_orthogonal(2 * norb if kind == "ghf" else norb)
     Mc = np.array(M, dtype=object)
